@@ -34,7 +34,7 @@ from elementpath.datatypes import AbstractBinary, AbstractDateTime, AnyAtomicTyp
     Language, NumericProxy, Timezone, UntypedAtomic
 from elementpath.namespaces import XML_BASE, XPATH_FUNCTIONS_NAMESPACE
 from elementpath.helpers import collapse_white_spaces, is_xml_codepoint, \
-    escape_json_string, unescape_json_string, not_equal
+    escape_json_string, unescape_json_string
 from elementpath.sequences import xlist
 from elementpath.etree import etree_iter_strings, is_etree_element
 from elementpath.collations import CollationManager
@@ -170,7 +170,7 @@ def evaluate__map_put(self: XPathFunction, context: ta.ContextType = None) -> XP
     if value is None:
         value = []
 
-    items = {k: v for k, v in map_.items(context) if not_equal(k, key)}
+    items = {k: v for k, v in map_.items(context) if not same_key(k, key)}
     items[key] = value
     return XPathMap(self.parser, items=items)
 
@@ -187,10 +187,10 @@ def evaluate__map_remove(self: XPathFunction, context: ta.ContextType = None) ->
         return map_
     elif isinstance(keys, list):
         items = (
-            (k, v) for k, v in map_.items(context) if all(not_equal(k, x) for x in keys)
+            (k, v) for k, v in map_.items(context) if not any(same_key(k, x) for x in keys)
         )
     else:
-        items = ((k, v) for k, v in map_.items(context) if not_equal(k, keys))
+        items = ((k, v) for k, v in map_.items(context) if not same_key(k, keys))
 
     return XPathMap(self.parser, items=items)
 
